@@ -29,6 +29,10 @@
 //!   thread* — through a captured `ArbiterHandle` (`t`) or through `Arbiter::current()` (`c`, the
 //!   task's own arbiter only).  A task running ON the target arbiter sends to its own arbiter while
 //!   commands of other threads (or a stop) sit undrained in the channel.
+//! * C10 `late <a> dir|sys`: once target `a`'s loop has ended (its channel refuses commands, seen through a
+//!   handle) a future, a function and a stop are sent through the OWNER `Arbiter` object — from the
+//!   director's thread (no System there) or from a task on the system thread (a live System whose own
+//!   arbiter is running): all three report false and nothing starts anywhere.
 //! * `case <name> c09|c10 rt=custom`: `System::with_tokio_rt` / `Arbiter::with_tokio_rt` with a
 //!   caller-built runtime instead of `System::new` / `Arbiter::new`.
 use std::{
@@ -166,6 +170,8 @@ struct Scenario {
     task_gate: Vec<Option<bool>>,
     /// c10: a `wait` line for this task exists (it has started when the director gets past that line)
     task_waited: Vec<bool>,
+    /// c10: `late` lines: (target, from a task on the system thread?, first of its two task numbers)
+    lates: Vec<(usize, bool, usize)>,
     stopped: Vec<bool>, // c10: a stop command exists for this arbiter
 }
 
@@ -1192,6 +1198,68 @@ fn exec_c10(sc: &Scenario, jseed: u64) -> Out {
         let _ = tx.send(HelperMsg::Quit);
     }
 
+    // `late`: sends through the owner object once the loop has ended
+    let mut owner_rets: Vec<String> = vec![];
+    for (ai, on_sys, t1) in sc.lates.iter().copied() {
+        let t0 = Instant::now();
+        let mut gone = !handles[ai].spawn_fn(|| {});
+        while !gone && t0.elapsed() < WATCHDOG {
+            thread::sleep(Duration::from_micros(200));
+            gone = !handles[ai].spawn_fn(|| {});
+        }
+        let Some(a) = owners[ai].take().filter(|_| gone) else {
+            owner_rets.push("???".into());
+            continue;
+        };
+        let probe = {
+            let log = log.clone();
+            move |a: &Arbiter| {
+                let (l1, l2) = (log.clone(), log.clone());
+                (a.spawn(async move { l1.start(t1) }), a.spawn_fn(move || l2.start(t1 + 1)), a.stop())
+            }
+        };
+        let r = if on_sys {
+            // the caller's thread has a live System whose own arbiter is running
+            let (tx, rx) = mpsc::channel();
+            let sent = sys.arbiter().spawn(async move {
+                let r = probe(&a);
+                let _ = tx.send((a, r));
+            });
+            match rx.recv_timeout(WATCHDOG) {
+                Ok((a, r)) => {
+                    owners[ai] = Some(a);
+                    // whatever ended up on the system arbiter has started when this marker has run
+                    let (mtx, mrx) = mpsc::channel();
+                    sys.arbiter().spawn_fn(move || {
+                        let _ = mtx.send(());
+                    });
+                    let _ = mrx.recv_timeout(WATCHDOG);
+                    Some(r)
+                }
+                Err(_) => {
+                    t3.push(("C10".into(), format!("a task sent to the live system arbiter (accepted: {sent}) did not run within {WATCHDOG:?}")));
+                    None
+                }
+            }
+        } else {
+            let r = probe(&a);
+            owners[ai] = Some(a);
+            Some(r)
+        };
+        match r {
+            Some(r) => {
+                if r != (false, false, false) {
+                    t3.push(("C10".into(), format!(
+                        "arbiter {ai}: its loop has ended (its channel refuses commands), but Arbiter::spawn / spawn_fn / stop on the owner, called from {}, returned {r:?}",
+                        if on_sys { "a task on the system thread (live System)" } else { "a thread without a System" }
+                    )));
+                }
+                owner_rets.push([r.0, r.1, r.2].iter().map(|x| if *x { '1' } else { '0' }).collect());
+            }
+            None => owner_rets.push("???".into()),
+        }
+    }
+
     // "join returns only after the loop has ended": when join has returned, (a) every `pend` future
     // that had STARTED on that arbiter has been dropped (the LocalSet that owns it is gone) and
     // (b) no task start is logged afterwards.  (A future still sitting in the channel is not covered:
@@ -1207,22 +1275,6 @@ fn exec_c10(sc: &Scenario, jseed: u64) -> Out {
             seq_at_join.push(usize::MAX);
             continue;
         };
-        // one run in four: sends through the OWNER object after the thread's loop has ended (seen through
-        // a handle: its channel refuses commands) are refused as well — `Arbiter::spawn/spawn_fn/stop`
-        if jseed % 4 == 3 {
-            let t0 = Instant::now();
-            let mut gone = !handles[ai].spawn_fn(|| {});
-            while !gone && t0.elapsed() < Duration::from_secs(2) {
-                thread::sleep(Duration::from_micros(200));
-                gone = !handles[ai].spawn_fn(|| {});
-            }
-            if gone {
-                let r = (a.spawn(async {}), a.spawn_fn(|| {}), a.stop());
-                if r != (false, false, false) {
-                    t3.push(("C10".into(), format!("arbiter {ai}: its channel is closed, but Arbiter::spawn/spawn_fn/stop on the owner returned {r:?}")));
-                }
-            }
-        }
         let r = join_watchdog(a, if hung { Duration::from_millis(500) } else { WATCHDOG });
         hung |= r == "hang";
         joins.push(r);
@@ -1411,7 +1463,7 @@ fn exec_c10(sc: &Scenario, jseed: u64) -> Out {
         Some(g) => b(g),
     };
     let logline = format!(
-        "rets={} starts={} waits={} joins={} sysgone={} post={} ids={} once={} late={}",
+        "rets={} starts={} waits={} joins={} sysgone={} post={} ids={} once={} late={} owner={}",
         if rets.is_empty() { "-".into() } else { rets.iter().map(|r| b(*r)).collect::<Vec<_>>().join("") },
         if starts.is_empty() { "-".into() } else { starts.join(",") },
         if waits.is_empty() { "-".into() } else { waits.iter().map(|(t, ok)| format!("t{t}:{}", b(*ok))).collect::<Vec<_>>().join(",") },
@@ -1421,6 +1473,7 @@ fn exec_c10(sc: &Scenario, jseed: u64) -> Out {
         ids,
         b(once_ok),
         b(late),
+        if owner_rets.is_empty() { "-".to_string() } else { owner_rets.join(",") },
     );
     // normalised verdict (the Lean driver prints the same from the model's final state)
     let mut v = vec![];
@@ -1436,6 +1489,7 @@ fn exec_c10(sc: &Scenario, jseed: u64) -> Out {
     v.push(format!("ids={ids}"));
     v.push(format!("once={}", if once_ok { "ok" } else { "bad" }));
     v.push(format!("late={}", b(late)));
+    v.push(format!("owner={}", if owner_rets.is_empty() { "-".to_string() } else { owner_rets.join(",") }));
     Out { log: logline, verdict: v.join(" "), t3 }
 }
 
@@ -1863,7 +1917,8 @@ fn feed(sc: &mut Scenario, ws: &[&str]) -> LineRes {
         (10, ["wait", t]) => {
             let Some(t) = parse_prefixed(t, "t") else { return bad() };
             // only for a task with no stop ahead of it on its arbiter and no closed gate in front of it
-            if t >= sc.ntask || sc.stopped[sc.task_arb[t]] || sc.nlines >= MAX_LINES {
+            // (the two tasks of a `late` line are never meant to start)
+            if t >= sc.ntask || sc.stopped[sc.task_arb[t]] || sc.nlines >= MAX_LINES || sc.lates.iter().any(|l| t == l.2 || t == l.2 + 1) {
                 return bad();
             }
             if (0..t).any(|g| sc.task_arb[g] == sc.task_arb[t] && sc.task_gate[g] == Some(false)) {
@@ -1883,6 +1938,30 @@ fn feed(sc: &mut Scenario, ws: &[&str]) -> LineRes {
             sc.task_gate[t] = Some(true);
             sc.cmds.push(Cmd10::Open { task: t });
             LineRes::Plain("ok".into())
+        }
+        (10, ["late", a, w]) => {
+            let on_sys = match *w {
+                "dir" => false,
+                "sys" => true,
+                _ => return bad(),
+            };
+            let Some(a) = parse_nat(a) else { return bad() };
+            // an `Arbiter::new` target (the system arbiter has no owner object), once per target; from the
+            // system thread only while the system arbiter is not itself a target (it must stay alive)
+            if a >= sc.narb || sc.sys_idx == Some(a) || sc.nlines >= MAX_LINES || sc.ntask + 2 > MAX_TASKS
+                || sc.lates.iter().any(|l| l.0 == a) || (on_sys && sc.sys_idx.is_some())
+            {
+                return bad();
+            }
+            sc.nlines += 1;
+            sc.lates.push((a, on_sys, sc.ntask));
+            for _ in 0..2 {
+                sc.ntask += 1;
+                sc.task_arb.push(a);
+                sc.task_gate.push(None);
+                sc.task_waited.push(false);
+            }
+            LineRes::Plain(format!("ok t{} t{}", sc.ntask - 2, sc.ntask - 1))
         }
         (10, ["go", j]) => {
             let Some(j) = parse_prefixed(j, "j=") else { return bad() };
@@ -2397,6 +2476,11 @@ fn directed_c10(w: &mut dyn Write, rng: &mut Rng, n: &mut usize, thorough: bool)
     // (0) a task running ON an arbiter sends while its thread is held: to its own arbiter through
     // `Arbiter::current()` (`c0`) or a captured handle (`t0`), behind commands / a stop other threads
     // have already sent; to another arbiter; stopping its own arbiter
+    // (00) sends through the OWNER object once the loop has ended — from a thread with a live System (a task
+    // on the system thread) and from one without: false, and nothing starts anywhere
+    case(w, &[s("arb"), s("spawn 0 own fn"), s("wait t0"), s("late 0 sys"), s("stop 0 own")], rng);
+    case(w, &[s("arb"), s("arb"), s("late 0 sys"), s("late 1 dir"), s("spawn 0 h1 fn"), s("spawn 1 own pend"), s("stop 0 h1"), s("spawn 0 own fn"), s("stop 1 h2")], rng);
+    case(w, &[s("arb"), s("spawn 0 own gate"), s("wait t0"), s("late 0 sys"), s("spawn 0 h1 fn"), s("stop 0 c0"), s("spawn 0 own fn"), s("open t0")], rng);
     for tgt in ["arb", "sysarb"] {
         // FIFO: a remote command, then the self-send, then a remote one
         case(w, &[s(tgt), s("spawn 0 own gate"), s("wait t0"), s("spawn 0 h1 fn"), s("spawn 0 c0 fut"), s("spawn 0 own fn"), s("open t0"), s("wait t3"), s("stop 0 own")], rng);
@@ -2488,17 +2572,26 @@ fn gen_c10(a: &Args, w: &mut dyn Write) {
         for i in 0..narb {
             writeln!(w, "{}", if with_sys && i == sys_pos { "sysarb" } else { "arb" }).unwrap();
         }
+        let mut tasks: Vec<usize> = vec![]; // task -> arb (usize::MAX: the two tasks of a `late` line)
+        // a third of the cases: owner-side sends after the loop has ended, for some of the targets
+        if rng.chance(1, 3) {
+            for i in 0..narb {
+                if !(with_sys && i == sys_pos) && rng.chance(2, 3) {
+                    writeln!(w, "late {i} {}", if with_sys || rng.chance(1, 3) { "dir" } else { "sys" }).unwrap();
+                    tasks.extend([usize::MAX, usize::MAX]);
+                }
+            }
+        }
         let len = rng.range(1, 10);
         let mut stopped = vec![false; narb];
         let mut held: Vec<Option<usize>> = vec![None; narb]; // closed gate on this target
-        let mut tasks: Vec<usize> = vec![]; // task -> arb
         let style = [0, 0, 1, 2][rng.below(4)]; // 0: racing stops, 1: wait for the last task then stop, 2: mixed
         if rng.chance(1, 3) {
             // hold one target's thread: what follows piles up behind the gate
             let arb = rng.below(narb);
-            writeln!(w, "spawn {arb} {} gate\nwait t0", VIAS[rng.below(3)]).unwrap();
+            writeln!(w, "spawn {arb} {} gate\nwait t{}", VIAS[rng.below(3)], tasks.len()).unwrap();
+            held[arb] = Some(tasks.len());
             tasks.push(arb);
-            held[arb] = Some(0);
         }
         for _ in 0..len {
             let arb = rng.below(narb);
@@ -2582,6 +2675,10 @@ fn gen_c10(a: &Args, w: &mut dyn Write) {
                     if !seq.iter().any(|s| *s >= 3) {
                         writeln!(w, "stop 0 own").unwrap();
                     }
+                    // (the task numbers of a `late` line come last: nothing above refers to them)
+                    if rep == 1 || rep == 2 {
+                        writeln!(w, "late 0 {}", if rep == 1 { "sys" } else { "dir" }).unwrap();
+                    }
                     if sysrep {
                         writeln!(w, "open t0").unwrap();
                     }
@@ -2630,6 +2727,7 @@ fn gen_c10(a: &Args, w: &mut dyn Write) {
     writeln!(w, "case bad2 c10\narb\nspawn 0 own fn\nident\narb early\nstop sys-pre 1").unwrap();
     writeln!(w, "case bad3 c10\nhost 0 kept\nhost 4 kept\nhost 1 gone\nhost 2 kept\nhost 1 dropped\nsysarb\nsysarb\narb\narb\narb\nident\nspawn 1 own gate\nspawn 1 own fn\nwait t1\nwait t0\nopen t1\nopen t0\nopen t0\nwait t1\nspawnn 1 own fn 1\nspawnn 1 own fn 301\nspawnn 1 own gate 5\nspawnn 1 h1 fn 3\nspawnn 0 own fut 300\nspawnn 0 own fut 100\nstop 0 own\nstop 1 own\ngo j=9\nstop 2 h2\ngo j=9").unwrap();
     writeln!(w, "case bad4 c10\narb\nhost 1 kept\nspawn 0 own fn\nsysarb\nstop 0 own\ngo j=1").unwrap();
+    writeln!(w, "case bad6 c10\nlate 0 dir\nsysarb\narb\nlate 0 dir\nlate 1 sys\nlate 1 here\nlate 2 dir\nlate 1 dir\nlate 1 dir\nwait t0\nwait t1\nspawn 1 own fn\nwait t2\nstop 1 own\nstop 0 own\narb\ngo j=5").unwrap();
     writeln!(w, "case bad5 c10 rt=custom\narb\narb\nspawn 0 c0 fn\nspawn 0 own gate\nspawn 0 c0 fn\nspawn 0 t0 fn\nwait t0\nspawn 1 c0 fn\nspawn 0 c1 fn\nspawn 0 t9 fn\nspawn 0 tx fn\nspawn 1 t0 fn\nspawnn 0 c0 fn 3\nstop 1 c0\nstop 1 t0\nopen t0\nspawn 0 c0 fn\nstop 0 t0\nstop 0 own\ngo j=2").unwrap();
 }
 
